@@ -4,7 +4,7 @@ def _reg(mod, names):
     for n in names: LEMMA_MODULE[n] = mod
 _reg('blake', ['B1', 'B2', 'B3', 'B4', 'B5'])
 _reg('argon', ['G1', 'G2', 'G4'])
-_reg('aes', ['A1', 'A2', 'A3', 'A5'])
+_reg('aes', ['A1', 'A2', 'A3', 'A5', 'A4'])
 _reg('isa', ['I1', 'I4', 'I6'])
 _reg('jit', ['J1'])
 _reg('recip', ['R1', 'R2', 'R3'])
@@ -24,13 +24,13 @@ PROPS = {
  'C10': dict(level='other', lemmas=['G1', 'G2', 'G4', 'B1', 'B2', 'B3', 'B4', 'H3'],
    files=['src/dataset.cpp', 'src/argon2_core.c', 'src/argon2_ref.c', 'src/argon2_ssse3.c', 'src/argon2_avx2.c', 'src/blake2/blamka-round-ref.h', 'src/blake2/blamka-round-ssse3.h', 'src/blake2/blamka-round-avx2.h', 'src/blake2/blake2b.c'],
    explanation='TODO', trusted=['RFC 9106 transcription in spec/argon2_ref.py'], outside=[]),
- 'C12': dict(level='other', lemmas=['A1', 'A2', 'A3', 'A5'],
+ 'C12': dict(level='other', lemmas=['A1', 'A2', 'A3', 'A5', 'A4'],
    files=['src/aes_hash.cpp', 'src/aes_hash.hpp', 'src/soft_aes.cpp', 'src/soft_aes.h', 'src/intrin_portable.h', 'src/virtual_machine.cpp', 'src/asm/program_loop_store_hard_aes.inc', 'src/asm/program_loop_store_soft_aes.inc', 'doc/specs.md'],
    explanation='TODO', trusted=['FIPS-197 transcription in spec/aes_ref.py (self-tested on the FIPS-197 appendix B vector)', 'Intel SDM: AESENC/AESDEC == FIPS-197 round / inverse round'], outside=[]),
  'C05': dict(level='other', lemmas=['I1', 'I7', 'I8'],
    files=['src/bytecode_machine.cpp', 'src/bytecode_machine.hpp', 'src/instruction.hpp', 'src/virtual_machine.cpp', 'src/vm_interpreted.cpp', 'src/intrin_portable.h', 'src/instructions_portable.cpp', 'src/common.hpp', 'src/configuration.h', 'doc/specs.md'],
    explanation='TODO', trusted=['doc/specs.md chapter 4-5 transcription in spec/vm_ref.py'], outside=[]),
- 'C04': dict(level='translation_validation', lemmas=['J1', 'J3', 'J4', 'I1'],
+ 'C04': dict(level='translation_validation', lemmas=['J1', 'J3', 'J4', 'A4', 'I1'],
    files=['src/jit_compiler_x86.cpp', 'src/jit_compiler_x86.hpp', 'src/jit_compiler_x86_static.S', 'src/bytecode_machine.cpp', 'src/bytecode_machine.hpp', 'src/vm_interpreted.cpp', 'src/vm_compiled.cpp', 'src/instruction_weights.hpp'],
    explanation='TODO', trusted=['x86-64 semantics of engine/x86sem.py (Intel SDM transcription for the ~60 forms used)', 'doc/specs.md chapter 5 transcription'], outside=[]),
  'C18': dict(level='other', lemmas=['R1', 'R2', 'R3'],
